@@ -93,51 +93,64 @@ Definition take_val (k : nat) (bs : bytes) : option (N * bytes) :=
 Definition signed (bits : N) (u : N) : Z :=
   if u <? 2 ^ (bits - 1) then Z.of_N u else (Z.of_N u - Z.of_N (2 ^ bits))%Z.
 
+(* the non-recursive part: either a finished value, or an array header
+   announcing n elements *)
+Inductive head :=
+| HVal (p : pres mval)
+| HArr (n : N) (r : bytes).
+
+Definition bytes_of (n : N) (mk : bytes -> mval) (r : bytes) : head :=
+  match take n r with Some (a, r') => HVal (POk (mk a) r') | None => HVal PShort end.
+
+Definition with_len (k : nat) (r : bytes) (cont : N -> bytes -> head) : head :=
+  match take_val k r with Some (n, r') => cont n r' | None => HVal PShort end.
+
+Definition parse_head (bs : bytes) : head :=
+  match bs with
+  | [] => HVal PShort
+  | t :: r =>
+    let tn := b2n t in
+    if tn <=? 127 then HVal (POk (MInt (Z.of_N tn)) r)
+    else if tn <=? 143 then HVal PUnmod                                   (* fixmap *)
+    else if tn <=? 159 then HArr (tn - 144) r                             (* fixarray *)
+    else if tn <=? 191 then bytes_of (tn - 160) MStr r                    (* fixstr *)
+    else if tn =? 192 then HVal (POk MNil r)
+    else if tn =? 193 then HVal PBad
+    else if tn =? 194 then HVal (POk (MBool false) r)
+    else if tn =? 195 then HVal (POk (MBool true) r)
+    else if tn =? 196 then with_len 1 r (fun n r' => bytes_of n MBin r')
+    else if tn =? 197 then with_len 2 r (fun n r' => bytes_of n MBin r')
+    else if tn =? 198 then with_len 4 r (fun n r' => bytes_of n MBin r')
+    else if tn <=? 203 then HVal PUnmod                                   (* ext8-32, float32/64 *)
+    else if tn =? 204 then with_len 1 r (fun n r' => HVal (POk (MInt (Z.of_N n)) r'))
+    else if tn =? 205 then with_len 2 r (fun n r' => HVal (POk (MInt (Z.of_N n)) r'))
+    else if tn =? 206 then with_len 4 r (fun n r' => HVal (POk (MInt (Z.of_N n)) r'))
+    else if tn =? 207 then with_len 8 r (fun n r' => HVal (POk (MInt (Z.of_N n)) r'))
+    else if tn =? 208 then with_len 1 r (fun n r' => HVal (POk (MInt (signed 8 n)) r'))
+    else if tn =? 209 then with_len 2 r (fun n r' => HVal (POk (MInt (signed 16 n)) r'))
+    else if tn =? 210 then with_len 4 r (fun n r' => HVal (POk (MInt (signed 32 n)) r'))
+    else if tn =? 211 then with_len 8 r (fun n r' => HVal (POk (MInt (signed 64 n)) r'))
+    else if tn <=? 216 then HVal PUnmod                                   (* fixext *)
+    else if tn =? 217 then with_len 1 r (fun n r' => bytes_of n MStr r')
+    else if tn =? 218 then with_len 2 r (fun n r' => bytes_of n MStr r')
+    else if tn =? 219 then with_len 4 r (fun n r' => bytes_of n MStr r')
+    else if tn =? 220 then with_len 2 r (fun n r' => HArr n r')
+    else if tn =? 221 then with_len 4 r (fun n r' => HArr n r')
+    else if tn <=? 223 then HVal PUnmod                                   (* map16/32 *)
+    else HVal (POk (MInt (Z.of_N tn - 256)%Z) r)                          (* negative fixint *)
+  end.
+
 Fixpoint mp_parse (fuel : nat) (bs : bytes) : pres mval :=
   match fuel with
   | O => PUnmod
   | S f =>
-    match bs with
-    | [] => PShort
-    | t :: r =>
-      let tn := b2n t in
-      let bytes_of (n : N) (mk : bytes -> mval) (r : bytes) : pres mval :=
-        match take n r with Some (a, r') => POk (mk a) r' | None => PShort end in
-      let with_len (k : nat) (cont : N -> bytes -> pres mval) : pres mval :=
-        match take_val k r with Some (n, r') => cont n r' | None => PShort end in
-      let arr (n : N) (r : bytes) : pres mval :=
-        match mp_parse_n f n r [] with
-        | POk l r' => POk (MArr l) r'
-        | PShort => PShort | PBad => PBad | PUnmod => PUnmod
-        end in
-      if tn <=? 127 then POk (MInt (Z.of_N tn)) r
-      else if tn <=? 143 then PUnmod                                   (* fixmap *)
-      else if tn <=? 159 then arr (tn - 144) r                         (* fixarray *)
-      else if tn <=? 191 then bytes_of (tn - 160) MStr r               (* fixstr *)
-      else if tn =? 192 then POk MNil r
-      else if tn =? 193 then PBad
-      else if tn =? 194 then POk (MBool false) r
-      else if tn =? 195 then POk (MBool true) r
-      else if tn =? 196 then with_len 1 (fun n r' => bytes_of n MBin r')
-      else if tn =? 197 then with_len 2 (fun n r' => bytes_of n MBin r')
-      else if tn =? 198 then with_len 4 (fun n r' => bytes_of n MBin r')
-      else if tn <=? 203 then PUnmod                                   (* ext8-32, float32/64 *)
-      else if tn =? 204 then with_len 1 (fun n r' => POk (MInt (Z.of_N n)) r')
-      else if tn =? 205 then with_len 2 (fun n r' => POk (MInt (Z.of_N n)) r')
-      else if tn =? 206 then with_len 4 (fun n r' => POk (MInt (Z.of_N n)) r')
-      else if tn =? 207 then with_len 8 (fun n r' => POk (MInt (Z.of_N n)) r')
-      else if tn =? 208 then with_len 1 (fun n r' => POk (MInt (signed 8 n)) r')
-      else if tn =? 209 then with_len 2 (fun n r' => POk (MInt (signed 16 n)) r')
-      else if tn =? 210 then with_len 4 (fun n r' => POk (MInt (signed 32 n)) r')
-      else if tn =? 211 then with_len 8 (fun n r' => POk (MInt (signed 64 n)) r')
-      else if tn <=? 216 then PUnmod                                   (* fixext *)
-      else if tn =? 217 then with_len 1 (fun n r' => bytes_of n MStr r')
-      else if tn =? 218 then with_len 2 (fun n r' => bytes_of n MStr r')
-      else if tn =? 219 then with_len 4 (fun n r' => bytes_of n MStr r')
-      else if tn =? 220 then with_len 2 (fun n r' => arr n r')
-      else if tn =? 221 then with_len 4 (fun n r' => arr n r')
-      else if tn <=? 223 then PUnmod                                   (* map16/32 *)
-      else POk (MInt (Z.of_N tn - 256)%Z) r                            (* negative fixint *)
+    match parse_head bs with
+    | HVal p => p
+    | HArr n r =>
+      match mp_parse_n f n r [] with
+      | POk l r' => POk (MArr l) r'
+      | PShort => PShort | PBad => PBad | PUnmod => PUnmod
+      end
     end
   end
 with mp_parse_n (fuel : nat) (n : N) (bs : bytes) (acc : list mval) : pres (list mval) :=
